@@ -1,5 +1,5 @@
 """C01 — see DESIGN.md section 5; shares Model/Ctrl.lean, Drive/Ctrl.lean and harness/ekw/sim_ctrl.py with C01–C04."""
-from ekw import ctrl_check
+from ekw import c01_real, ctrl_check
 
 PROPERTY = "C01"
 LEVEL_TEXT = ("Lean theorems over the small-step system controller x abstract executors (Model/Ctrl.lean): in every reachable state every stored copy "
@@ -7,18 +7,31 @@ LEVEL_TEXT = ("Lean theorems over the small-step system controller x abstract ex
               "output has been delivered with that value; two finished runs on different clusters/placements/event orders agree (c01_independent). "
               "Proved from the 7-tier system invariant (InvAll, ~90 conjuncts) by induction over steps, for any order/batching of events and any "
               "interleaving of executor steps. Tied to the real controller by per-phase state correspondence (SimBridge) and a sequential-"
-              "interpreter oracle.")
-LEVEL_NOTE = ("modelled, not verified: scheduler/api.py initialize/plan, scheduler/assign.py build_assignment + the pops of _assignment_heuristic, controller/act.py act/flush_queues, controller/notify.py notify/consider_*, impl.run loop skeleton (Model/Ctrl.lean, one Lean function per Python function). Abstracted as an oracle argument validated for admissibility by the model and supplied from what the real run chose: which (idle worker, computable task) pairs the distance/overhead heuristics and host->component migration pick per round, and which `available` host is the transmit source; theorems quantify over all admissible choices. Executors are abstract (Env; SimBridge mirrors it): a dispatched task runs once its inputs are on its host and publishes outputs in index order; transmit/fetch read the source store; purge is immediate. Hypothesis WF: tasks topologically numbered, inputs duplicate-free, >=1 output per task, requested outputs exist, worker ids distinct (the generator guarantees it). Task values are uninterpreted terms: argument binding inside a task is C10, byte-faithful copies are C07, real (cloud)pickle is sampled only.")
+              "interpreter oracle; the path from the controller's commands to the execution of a task (runner argument binding, output "
+              "publication, shm, data server, zmq) is not proved but sampled end to end: random jobs of real callables run on real local "
+              "clusters and every requested value is compared with a sequential interpreter of the JobInstance.")
+LEVEL_NOTE = ("modelled, not verified: scheduler/api.py initialize/plan, scheduler/assign.py build_assignment + the pops of _assignment_heuristic, controller/act.py act/flush_queues, controller/notify.py notify/consider_*, impl.run loop skeleton (Model/Ctrl.lean, one Lean function per Python function). Abstracted as an oracle argument validated for admissibility by the model and supplied from what the real run chose: which (idle worker, computable task) pairs the distance/overhead heuristics and host->component migration pick per round, and which `available` host is the transmit source; theorems quantify over all admissible choices. Executors are abstract (Env; SimBridge mirrors it): a dispatched task runs once its inputs are on its host and publishes outputs in index order; transmit/fetch read the source store; purge is immediate. Hypothesis WF: tasks topologically numbered, inputs duplicate-free, >=1 output per task, requested outputs exist, worker ids distinct (the generator guarantees it). Task values are uninterpreted terms: argument binding inside a task is C10, byte-faithful copies are C07, real (cloud)pickle is sampled only. Sampled, not modelled (harness/ekw/c01_real.py, 3 runs quick / 40 thorough): executor/runner/runner.py run (statics, positional and keyword edges, keyword edges into defaulted parameters, generator outputs in declaration order), runner/memory.py, runner/entrypoint.py, executor/executor.py, data_server.py and the zmq/shm transport, by end-to-end runs of the real controller.impl.run + Bridge + forked executors on 1-2 hosts x 1-2 workers against a sequential interpreter.")
 TECHNIQUE = "Lean 4 inductive system invariant (StoreSound + fetch pipeline) over a small-step transition system, with differential state correspondence against the real controller driven through SimBridge"
 LEAN_PROPS = ["EkwVerif.Props.C01"]
 LEAN_DRIVERS = ["Ctrl"]
-RULE = ctrl_check.RULE
-ASSUMPTIONS = ctrl_check.ASSUMPTIONS
+RULE = ctrl_check.RULE + (" || real-cluster runs: random jobs of 2-6 real callables (ints/strings/tuples built injectively from every bound parameter; static "
+                          "and upstream inputs by position and by keyword, keyword edges into parameters with a default, 2-3-output generator tasks "
+                          "whose output names are declared in non-sorted order, consumers of non-last outputs, fan-out, dotted task names, a random "
+                          "subset of requested outputs incl. non-sinks) built with TaskBuilder.from_callable/JobBuilder, run by the real "
+                          "controller.impl.run + Bridge + forked executors (zmq tcp, shm) on 1-2 hosts x 1-2 workers; every requested value is "
+                          "compared with a sequential interpreter of the JobInstance; each run counts as a non-trivial case")
+ASSUMPTIONS = list(ctrl_check.ASSUMPTIONS) + [
+    "real-cluster runs: a run that does not end by the deadline (30 s) or raises counts only if an immediate re-run of the same case does not end cleanly either "
+    "(a fork-with-threads deadlock at cluster start-up under heavy machine load is outside C01); wrong or missing values always count",
+]
 
 
 def correspond(ctx):
     ctrl_check.correspond(ctx, PROPERTY)
+    c01_real.correspond_real(ctx)
 
 
 def replay(payload):
+    if "real" in payload.get("case", {}):
+        return c01_real.replay(payload["case"])
     return ctrl_check.replay(payload, PROPERTY)
